@@ -312,6 +312,13 @@ func runC05(e *core.Env) error {
 		rr := r.Fork()
 		chain := transferChain(4+rr.Intn(4), uint64(1+rr.Intn(1000)))
 		fewAddrs := rr.Bool()
+		// the first histories have the sharp shape of "the same value is looked up before AND after the
+		// referenced integration recorded it, by the same running task": one dependent, recurring
+		// addresses, block by block, reference and dependent in lockstep
+		sharp := h < 4
+		if sharp {
+			fewAddrs = true
+		}
 		if fewAddrs {
 			// only three participants: the SAME address is looked up again and again, sometimes before and
 			// sometimes after the referenced integration has recorded it
@@ -327,7 +334,7 @@ func runC05(e *core.Env) error {
 		// A (and A2): referenced integrations storing the Transfer `to` address; B: references them
 		a := transferIG("iga", "ta", []string{"block_time"}, nil)
 		a2 := transferIG("iga2", "ta2", []string{"block_time", "log_addr"}, nil)
-		two := rr.Bool()
+		two := rr.Bool() && !sharp
 		onInput := rr.Bool() && !fewAddrs
 		bOp := "contains"
 		b := transferIG("igb", "tb", []string{"block_time", "log_addr", "tx_signer"}, func(ci *config.Integration) {
@@ -354,7 +361,7 @@ func runC05(e *core.Env) error {
 		if two {
 			igs = append(igs, a2)
 		}
-		chainC := rr.Chance(1, 3)
+		chainC := rr.Chance(1, 3) && !sharp
 		if chainC { // C references B
 			igs = append(igs, transferIG("igc", "tc", []string{"block_time", "log_addr"}, func(ci *config.Integration) {
 				for j := range ci.Block {
@@ -364,7 +371,7 @@ func runC05(e *core.Env) error {
 				}
 			}))
 		}
-		sameCol := rr.Chance(2, 3)
+		sameCol := rr.Chance(2, 3) && !sharp
 		if sameCol { // D references the same integration (and, half of the time, the same column) as B
 			col := "ev_from"
 			if onInput {
@@ -407,7 +414,14 @@ func runC05(e *core.Env) error {
 				stop = uint64(2 + rr.Intn(3))
 				w.tags["dependent-with-stop"]++
 			}
-			t, err := w.addTask("t"+ci.Name, ci, "src1", 1, stop, 1+rr.Intn(4), 1+rr.Intn(2))
+			if sharp {
+				stop = 0
+			}
+			bs, cc := 1+rr.Intn(4), 1+rr.Intn(2)
+			if sharp {
+				bs, cc = 1, 1
+			}
+			t, err := w.addTask("t"+ci.Name, ci, "src1", 1, stop, bs, cc)
 			if err != nil {
 				w.close()
 				return err
@@ -420,8 +434,12 @@ func runC05(e *core.Env) error {
 			names = append(names, n)
 		}
 		names = sortedCopy(names)
-		for i := 0; i < 16+rr.Intn(12) && !w.dead; i++ {
-			if rr.Chance(1, 5) {
+		nSteps := 16 + rr.Intn(12)
+		if sharp {
+			nSteps = 30
+		}
+		for i := 0; i < nSteps && !w.dead; i++ {
+			if !sharp && rr.Chance(1, 5) {
 				w.grow(1 + rr.Intn(2))
 				continue
 			}
@@ -429,6 +447,9 @@ func runC05(e *core.Env) error {
 			name := core.Pick(rr, names)
 			if i < 4 && rr.Bool() {
 				name = "igb"
+			}
+			if sharp {
+				name = []string{"iga", "igb"}[i%2]
 			}
 			t := byName[name]
 			before := w.digest()
